@@ -214,6 +214,11 @@ class Check:
         distinct = len(set(o["name"] for o in self.obligations))
         for dis in Z.CROSS["disagree"][:3]:
             self.harness_error("second solver disagrees: %s -- z3 says %s, cvc5 says %s" % (dis["name"], dis["z3"], dis["cvc5"]))
+        from symnum import npproxy as _npp
+        for which, c in sorted(_npp.CAP_CUTS):
+            self.assume("numpy.%s(x, %g) with a symbolic x is taken as x: the claims are restricted to x %s %g (for the Bose argument "
+                        "Q = h*omega/(k*T) capped in nonshear.Q the region beyond the cap is decided by the QF_FP kernel obligations of C12)"
+                        % (which, c, "<=" if which == "minimum" else ">=", c))
         cov = dict(
             explanation=explanation,
             obligations=n_obl,
